@@ -25,13 +25,81 @@ var c17RPCCommit = map[string]int{
 }
 
 // c17Squash collapses all whitespace of a printed expression.
-func c17Squash(s string) string { return strings.Join(strings.Fields(s), " ") }
+func c17Squash(s string) string {
+	return strings.ReplaceAll(strings.Join(strings.Fields(s), " "), ". ", ".")
+}
 
 // c17Literal finds the first composite literal of the given (printed) type
 // inside a function body and returns its ordered (field, expression) list.
+// c17SingleDefs: locals of a function that are defined exactly once by a 1:1
+// `:=` / `var x = e` and never assigned again - their name is irrelevant, a use
+// of them means the defining expression.
+func c17SingleDefs(fd *ast.FuncDecl) map[string]ast.Expr {
+	count := map[string]int{}
+	def := map[string]ast.Expr{}
+	ast.Inspect(fd.Body, func(n ast.Node) bool {
+		switch x := n.(type) {
+		case *ast.AssignStmt:
+			for i, l := range x.Lhs {
+				if id, ok := l.(*ast.Ident); ok && id.Name != "_" {
+					count[id.Name]++
+					if x.Tok == token.DEFINE && len(x.Lhs) == len(x.Rhs) {
+						def[id.Name] = x.Rhs[i]
+					} else {
+						count[id.Name] += 2 // multi-value definition or re-assignment: keep the name
+					}
+				}
+			}
+		case *ast.IncDecStmt:
+			if id, ok := x.X.(*ast.Ident); ok {
+				count[id.Name] += 2
+			}
+		case *ast.ValueSpec:
+			for i, n := range x.Names {
+				count[n.Name]++
+				if len(x.Values) == len(x.Names) {
+					def[n.Name] = x.Values[i]
+				} else {
+					count[n.Name] += 2
+				}
+			}
+		case *ast.RangeStmt:
+			for _, e := range []ast.Expr{x.Key, x.Value} {
+				if id, ok := e.(*ast.Ident); ok {
+					count[id.Name] += 3
+				}
+			}
+		case *ast.UnaryExpr:
+			if id, ok := x.X.(*ast.Ident); ok && x.Op == token.AND {
+				count[id.Name] += 3 // address taken
+			}
+		}
+		return true
+	})
+	res := map[string]ast.Expr{}
+	for n, e := range def {
+		if count[n] == 1 {
+			// only pure, cheap-to-read definitions: selectors, conversions, type assertions
+			switch e.(type) {
+			case *ast.SelectorExpr, *ast.TypeAssertExpr, *ast.Ident, *ast.ParenExpr, *ast.StarExpr:
+				res[n] = e
+			}
+		}
+	}
+	return res
+}
+
+func c17ResolveLocals(e ast.Expr, defs map[string]ast.Expr) ast.Expr {
+	for i := 0; i < 4; i++ {
+		e = c17Subst(e, defs)
+	}
+	return e
+}
+
 func c17Literal(fd *ast.FuncDecl, typ string) [][2]string {
 	var res [][2]string
 	found := false
+	defs := c17SingleDefs(fd)
 	ast.Inspect(fd.Body, func(n ast.Node) bool {
 		if found {
 			return false
@@ -47,15 +115,61 @@ func c17Literal(fd *ast.FuncDecl, typ string) [][2]string {
 				fail("%s literal in %s: positional element", typ, fd.Name.Name)
 				continue
 			}
-			res = append(res, [2]string{exprString(kv.Key), c17Squash(exprString(kv.Value))})
+			res = append(res, [2]string{exprString(kv.Key), c17Squash(exprString(c17ResolveLocals(kv.Value, defs)))})
 		}
 		return false
 	})
+	if !found && c17LitDepth < 2 && c17LitFiles != nil {
+		// extracted helper: look into the same-package functions this one calls
+		var callees []*ast.FuncDecl
+		ast.Inspect(fd.Body, func(n ast.Node) bool {
+			c, ok := n.(*ast.CallExpr)
+			if !ok {
+				return true
+			}
+			name := ""
+			switch f := c.Fun.(type) {
+			case *ast.Ident:
+				name = f.Name
+			case *ast.SelectorExpr:
+				name = f.Sel.Name
+			}
+			for _, file := range c17LitFiles {
+				for _, d := range file.Decls {
+					if g, ok := d.(*ast.FuncDecl); ok && g.Name.Name == name && g.Body != nil && g != fd {
+						callees = append(callees, g)
+					}
+				}
+			}
+			return true
+		})
+		for _, g := range callees {
+			has := false
+			ast.Inspect(g.Body, func(n ast.Node) bool {
+				if cl, ok := n.(*ast.CompositeLit); ok && cl.Type != nil && exprString(cl.Type) == typ {
+					has = true
+				}
+				return !has
+			})
+			if has {
+				c17LitDepth++
+				r := c17Literal(g, typ)
+				c17LitDepth--
+				return r
+			}
+		}
+	}
 	if !found {
 		fail("no %s literal in %s", typ, fd.Name.Name)
 	}
 	return res
 }
+
+// files of the package c17Literal currently works in (for helper lookup)
+var (
+	c17LitFiles []*ast.File
+	c17LitDepth int
+)
 
 func c17PairList(xs [][2]string) string {
 	q := make([]string, len(xs))
@@ -65,46 +179,332 @@ func c17PairList(xs [][2]string) string {
 	return "[" + strings.Join(q, ", ") + "]"
 }
 
-// c17Cond translates a boolean condition over `ourOrder.ChannelType` /
-// `theirOrder.ChannelType` into the generated Cond data type.
-func c17Cond(ce *constEnv, ours, theirs string, e ast.Expr) string {
+// c17Dec extracts the decision list of a function of two *Kit parameters that
+// returns (commitment type, musig2): whatever mixture of tagless / tagged
+// switches, if / else-if chains, early returns and a final return the body is
+// written in, it is normalised to an ordered list of (condition, result) with
+// first-match semantics. Conditions are boolean combinations of comparisons of
+// `<param>.ChannelType` with a package constant (operand order irrelevant);
+// simple local definitions (`t := ourOrder.ChannelType`) are followed and
+// same-package helper functions whose body is a single `return <expr>` are
+// inlined.
+type c17Dec struct {
+	ce      *constEnv
+	files   []*ast.File
+	ours    string
+	theirs  string
+	locals  map[string]ast.Expr
+	entries []string
+	depth   int
+}
+
+// subst replaces identifiers by expressions (parameters of an inlined helper,
+// followed locals).
+func c17Subst(e ast.Expr, m map[string]ast.Expr) ast.Expr {
 	switch x := e.(type) {
+	case *ast.Ident:
+		if r, ok := m[x.Name]; ok {
+			return r
+		}
+		return x
 	case *ast.ParenExpr:
-		return c17Cond(ce, ours, theirs, x.X)
+		return &ast.ParenExpr{X: c17Subst(x.X, m)}
+	case *ast.UnaryExpr:
+		return &ast.UnaryExpr{Op: x.Op, X: c17Subst(x.X, m)}
+	case *ast.BinaryExpr:
+		return &ast.BinaryExpr{Op: x.Op, X: c17Subst(x.X, m), Y: c17Subst(x.Y, m)}
+	case *ast.SelectorExpr:
+		return &ast.SelectorExpr{X: c17Subst(x.X, m), Sel: x.Sel}
+	case *ast.StarExpr:
+		return &ast.StarExpr{X: c17Subst(x.X, m)}
+	case *ast.SliceExpr:
+		return &ast.SliceExpr{X: c17Subst(x.X, m), Low: x.Low, High: x.High, Max: x.Max, Slice3: x.Slice3}
+	case *ast.IndexExpr:
+		return &ast.IndexExpr{X: c17Subst(x.X, m), Index: c17Subst(x.Index, m)}
+	case *ast.TypeAssertExpr:
+		return &ast.TypeAssertExpr{X: c17Subst(x.X, m), Type: x.Type}
+	case *ast.CallExpr:
+		c := &ast.CallExpr{Fun: x.Fun}
+		for _, a := range x.Args {
+			c.Args = append(c.Args, c17Subst(a, m))
+		}
+		return c
+	}
+	return e
+}
+
+// resolve follows locals and inlines single-return helpers.
+func (d *c17Dec) resolve(e ast.Expr) ast.Expr {
+	for i := 0; i < 8; i++ {
+		switch x := e.(type) {
+		case *ast.ParenExpr:
+			e = x.X
+			continue
+		case *ast.Ident:
+			if r, ok := d.locals[x.Name]; ok {
+				e = r
+				continue
+			}
+		case *ast.CallExpr:
+			// type conversion of one argument: transparent
+			if id, ok := x.Fun.(*ast.Ident); ok && len(x.Args) >= 1 {
+				if fd := findFunc(d.files, id.Name); fd != nil && fd.Body != nil && len(fd.Body.List) == 1 {
+					if ret, ok := fd.Body.List[0].(*ast.ReturnStmt); ok && len(ret.Results) == 1 {
+						m := map[string]ast.Expr{}
+						i := 0
+						for _, f := range fd.Type.Params.List {
+							for _, n := range f.Names {
+								if i < len(x.Args) {
+									m[n.Name] = c17Subst(x.Args[i], d.locals)
+								}
+								i++
+							}
+						}
+						e = c17Subst(ret.Results[0], m)
+						continue
+					}
+				}
+			}
+			// x.M() where M is a single-return method: inline with the receiver
+			if sel, ok := x.Fun.(*ast.SelectorExpr); ok && len(x.Args) == 0 {
+				for _, f := range d.files {
+					for _, dd := range f.Decls {
+						fd, ok := dd.(*ast.FuncDecl)
+						if !ok || fd.Recv == nil || fd.Name.Name != sel.Sel.Name || fd.Body == nil || len(fd.Body.List) != 1 ||
+							len(fd.Recv.List) != 1 || len(fd.Recv.List[0].Names) != 1 {
+							continue
+						}
+						if ret, ok := fd.Body.List[0].(*ast.ReturnStmt); ok && len(ret.Results) == 1 {
+							e = c17Subst(ret.Results[0], map[string]ast.Expr{fd.Recv.List[0].Names[0].Name: c17Subst(sel.X, d.locals)})
+							return d.resolve(e)
+						}
+					}
+				}
+			}
+		}
+		break
+	}
+	return e
+}
+
+// side: which parameter's channel type an expression denotes
+func (d *c17Dec) side(e ast.Expr) string {
+	e = d.resolve(e)
+	switch c17Squash(exprString(e)) {
+	case d.ours + ".ChannelType", "(*" + d.ours + ").ChannelType":
+		return ".ours"
+	case d.theirs + ".ChannelType", "(*" + d.theirs + ").ChannelType":
+		return ".theirs"
+	}
+	return ""
+}
+
+func (d *c17Dec) constVal(e ast.Expr) (string, bool) {
+	e = d.resolve(e)
+	if id, ok := e.(*ast.Ident); ok {
+		if v, ok := d.ce.get(id.Name); ok {
+			return v.ExactString(), true
+		}
+	}
+	if bl, ok := e.(*ast.BasicLit); ok && bl.Kind == token.INT {
+		return bl.Value, true
+	}
+	return "", false
+}
+
+func (d *c17Dec) cmp(op token.Token, l, r ast.Expr) (string, bool) {
+	for k := 0; k < 2; k++ {
+		if sd := d.side(l); sd != "" {
+			if v, ok := d.constVal(r); ok {
+				o := ".eq"
+				if op == token.NEQ {
+					o = ".ne"
+				}
+				return fmt.Sprintf("(%s %s %s)", o, sd, v), true
+			}
+		}
+		l, r = r, l
+	}
+	return "", false
+}
+
+func (d *c17Dec) cond(e ast.Expr) string {
+	e = d.resolve(e)
+	switch x := e.(type) {
+	case *ast.Ident:
+		if x.Name == "true" {
+			return "(.not (.and (.eq .ours 0) (.ne .ours 0)))"
+		}
 	case *ast.UnaryExpr:
 		if x.Op == token.NOT {
-			return "(.not " + c17Cond(ce, ours, theirs, x.X) + ")"
+			return "(.not " + d.cond(x.X) + ")"
 		}
 	case *ast.BinaryExpr:
 		switch x.Op {
 		case token.LOR:
-			return "(.or " + c17Cond(ce, ours, theirs, x.X) + " " + c17Cond(ce, ours, theirs, x.Y) + ")"
+			return "(.or " + d.cond(x.X) + " " + d.cond(x.Y) + ")"
 		case token.LAND:
-			return "(.and " + c17Cond(ce, ours, theirs, x.X) + " " + c17Cond(ce, ours, theirs, x.Y) + ")"
+			return "(.and " + d.cond(x.X) + " " + d.cond(x.Y) + ")"
 		case token.EQL, token.NEQ:
-			l, r := x.X, x.Y
-			if _, ok := l.(*ast.SelectorExpr); !ok {
-				l, r = r, l
-			}
-			side := ""
-			switch exprString(l) {
-			case ours + ".ChannelType":
-				side = ".ours"
-			case theirs + ".ChannelType":
-				side = ".theirs"
-			}
-			if id, ok := r.(*ast.Ident); ok && side != "" {
-				if v, ok := ce.get(id.Name); ok {
-					op := ".eq"
-					if x.Op == token.NEQ {
-						op = ".ne"
-					}
-					return fmt.Sprintf("(%s %s %s)", op, side, v.ExactString())
-				}
+			if c, ok := d.cmp(x.Op, x.X, x.Y); ok {
+				return c
 			}
 		}
 	}
 	return fmt.Sprintf("(.unknown %q)", c17Squash(exprString(e)))
+}
+
+func c17And(g, c string) string {
+	switch {
+	case g == "":
+		return c
+	case c == "":
+		return g
+	}
+	return "(.and " + g + " " + c + ")"
+}
+
+func c17Not(c string) string { return "(.not " + c + ")" }
+
+func (d *c17Dec) emit(guard string, ret *ast.ReturnStmt) {
+	commit, musig, src := "none", "none", "?"
+	if len(ret.Results) == 2 {
+		r0 := d.resolve(ret.Results[0])
+		if v, ok := c17RPCCommit[exprString(r0)]; ok {
+			commit = fmt.Sprintf("(some %d)", v)
+		}
+		if s := exprString(d.resolve(ret.Results[1])); s == "true" || s == "false" {
+			musig = "(some " + s + ")"
+		}
+		src = c17Squash(exprString(ret.Results[0]) + ", " + exprString(ret.Results[1]))
+	}
+	cond := "none"
+	if guard != "" {
+		cond = "(some " + guard + ")"
+	}
+	d.entries = append(d.entries, fmt.Sprintf("{ cond := %s, commit := %s, musig2 := %s, src := %q }", cond, commit, musig, src))
+}
+
+// block walks a statement list under a guard; it reports whether every path
+// through the list returns.
+func (d *c17Dec) block(stmts []ast.Stmt, guard string) bool {
+	for _, st := range stmts {
+		switch x := st.(type) {
+		case *ast.ReturnStmt:
+			d.emit(guard, x)
+			return true
+		case *ast.AssignStmt:
+			// follow simple local definitions
+			if len(x.Lhs) == len(x.Rhs) {
+				for i, l := range x.Lhs {
+					if id, ok := l.(*ast.Ident); ok {
+						d.locals[id.Name] = c17Subst(x.Rhs[i], d.locals)
+					}
+				}
+				continue
+			}
+			fail("DetermineCommitmentType: unsupported assignment %s", c17Squash(exprString(x.Lhs[0])))
+		case *ast.DeclStmt:
+			if gd, ok := x.Decl.(*ast.GenDecl); ok {
+				for _, sp := range gd.Specs {
+					if vs, ok := sp.(*ast.ValueSpec); ok && len(vs.Names) == len(vs.Values) {
+						for i, n := range vs.Names {
+							d.locals[n.Name] = c17Subst(vs.Values[i], d.locals)
+						}
+					}
+				}
+			}
+		case *ast.ExprStmt:
+			// logging and the like: no influence on the result
+		case *ast.BlockStmt:
+			if d.block(x.List, guard) {
+				return true
+			}
+		case *ast.IfStmt:
+			if d.ifChain(x, guard) {
+				return true
+			}
+		case *ast.SwitchStmt:
+			if d.switchStmt(x, guard) {
+				return true
+			}
+		default:
+			fail("DetermineCommitmentType: unsupported statement %T", st)
+		}
+	}
+	return false
+}
+
+func (d *c17Dec) ifChain(x *ast.IfStmt, guard string) bool {
+	if x.Init != nil {
+		d.block([]ast.Stmt{x.Init}, guard)
+	}
+	c := d.cond(x.Cond)
+	thenRet := d.block(x.Body.List, c17And(guard, c))
+	// the else branch is only reached when the condition is false; with
+	// first-match semantics that is implicit if the then-branch always returns
+	elseGuard := guard
+	if !thenRet {
+		elseGuard = c17And(guard, c17Not(c))
+	}
+	switch e := x.Else.(type) {
+	case nil:
+		return false
+	case *ast.IfStmt:
+		return d.ifChain(e, elseGuard) && thenRet
+	case *ast.BlockStmt:
+		return d.block(e.List, elseGuard) && thenRet
+	}
+	return false
+}
+
+func (d *c17Dec) switchStmt(x *ast.SwitchStmt, guard string) bool {
+	if x.Init != nil {
+		d.block([]ast.Stmt{x.Init}, guard)
+	}
+	allRet, hasDefault := true, false
+	var defaultClause *ast.CaseClause
+	neg := "" // conjunction of the negations of earlier cases whose body may fall out of the switch
+	for _, cs := range x.Body.List {
+		cc := cs.(*ast.CaseClause)
+		if cc.List == nil {
+			hasDefault, defaultClause = true, cc
+			continue
+		}
+		c := ""
+		for _, e := range cc.List {
+			var one string
+			if x.Tag == nil {
+				one = d.cond(e)
+			} else if s, ok := d.cmp(token.EQL, x.Tag, e); ok {
+				one = s
+			} else {
+				one = fmt.Sprintf("(.unknown %q)", c17Squash(exprString(x.Tag)+" == "+exprString(e)))
+			}
+			if c == "" {
+				c = one
+			} else {
+				c = "(.or " + c + " " + one + ")"
+			}
+		}
+		for _, st := range cc.Body {
+			if b, ok := st.(*ast.BranchStmt); ok && b.Tok == token.FALLTHROUGH {
+				fail("DetermineCommitmentType: fallthrough is not supported")
+			}
+		}
+		ret := d.block(cc.Body, c17And(c17And(guard, neg), c))
+		if !ret {
+			allRet = false
+			neg = c17And(neg, c17Not(c))
+		}
+	}
+	if hasDefault {
+		// the default clause is taken when no case matched, wherever it is written
+		if !d.block(defaultClause.Body, c17And(guard, neg)) {
+			allRet = false
+		}
+	}
+	return allRet && hasDefault
 }
 
 // genC17Facts emits the source-derived data the C17 model and theorems use.
@@ -121,14 +521,14 @@ func genC17Facts() {
 	l.p("def baseSupplyUnit : Nat := %s", intConst(ce, "order", "BaseSupplyUnit"))
 	l.p("")
 
-	// --- DetermineCommitmentType: tagless switch, one condition per case, `return <commit type>, <musig2>`
+	// --- DetermineCommitmentType: decision list (first match), `return <commit type>, <musig2>` per entry
 	l.p("inductive Side where | ours | theirs")
 	l.p("deriving Repr, DecidableEq")
 	l.p("inductive Cond where")
 	l.p("  | eq (s : Side) (c : Nat) | ne (s : Side) (c : Nat) | and (a b : Cond) | or (a b : Cond) | not (a : Cond)")
 	l.p("  | unknown (src : String)")
 	l.p("deriving Repr, DecidableEq")
-	l.p("/-- one `case` of the switch: condition (`none` = `default:`), returned lnrpc commitment type name, musig2 flag -/")
+	l.p("/-- one entry of the decision list (first match wins): condition (`none` = always), returned lnrpc commitment type name, musig2 flag -/")
 	l.p("structure DetCase where")
 	l.p("  cond : Option Cond")
 	l.p("  commit : Option Nat      -- lnrpc.CommitmentType value of the returned constant (`none` = not a known constant)")
@@ -137,7 +537,7 @@ func genC17Facts() {
 	l.p("deriving Repr, DecidableEq")
 	var cases []string
 	fd := findFunc(orderFiles, "DetermineCommitmentType")
-	if fd == nil || fd.Type.Params == nil || len(fd.Type.Params.List) == 0 {
+	if fd == nil || fd.Type.Params == nil || len(fd.Type.Params.List) == 0 || fd.Body == nil {
 		fail("order.DetermineCommitmentType not found")
 	} else {
 		var names []string
@@ -146,42 +546,16 @@ func genC17Facts() {
 				names = append(names, n.Name)
 			}
 		}
-		var sw *ast.SwitchStmt
-		for _, st := range fd.Body.List {
-			if s, ok := st.(*ast.SwitchStmt); ok {
-				sw = s
-			}
-		}
-		if len(names) != 2 || sw == nil || sw.Tag != nil || sw.Init != nil || len(fd.Body.List) != 1 {
-			fail("order.DetermineCommitmentType: body is not a single tagless switch over two parameters")
+		if len(names) != 2 {
+			fail("order.DetermineCommitmentType: expected two parameters")
 		} else {
-			for _, c := range sw.Body.List {
-				cc := c.(*ast.CaseClause)
-				cond := "none"
-				if len(cc.List) == 1 {
-					cond = "(some " + c17Cond(ce, names[0], names[1], cc.List[0]) + ")"
-				} else if len(cc.List) > 1 {
-					fail("DetermineCommitmentType: case with %d expressions", len(cc.List))
-				}
-				var ret *ast.ReturnStmt
-				if len(cc.Body) == 1 {
-					ret, _ = cc.Body[0].(*ast.ReturnStmt)
-				}
-				if ret == nil || len(ret.Results) != 2 {
-					fail("DetermineCommitmentType: case body is not a single two-value return")
-					continue
-				}
-				commit := "none"
-				if v, ok := c17RPCCommit[exprString(ret.Results[0])]; ok {
-					commit = fmt.Sprintf("(some %d)", v)
-				}
-				musig := "none"
-				if s := exprString(ret.Results[1]); s == "true" || s == "false" {
-					musig = "(some " + s + ")"
-				}
-				cases = append(cases, fmt.Sprintf("{ cond := %s, commit := %s, musig2 := %s, src := %q }",
-					cond, commit, musig, c17Squash(exprString(ret.Results[0])+", "+exprString(ret.Results[1]))))
+			d := &c17Dec{ce: ce, files: orderFiles, ours: names[0], theirs: names[1], locals: map[string]ast.Expr{}}
+			if !d.block(fd.Body.List, "") {
+				// a path without return cannot exist in compiled Go; keep the
+				// data valid and let the theorem decide
+				d.entries = append(d.entries, `{ cond := none, commit := none, musig2 := none, src := "no return found" }`)
 			}
+			cases = d.entries
 		}
 	}
 	l.p("def detCases : List DetCase := [")
@@ -191,6 +565,7 @@ func genC17Facts() {
 
 	// --- composite literals carrying the funding parameters
 	funding := pkgFiles("funding")
+	c17LitFiles = funding
 	if fd := findFunc(funding, "Manager.BatchChannelSetup"); fd != nil {
 		l.p("/-- `lnrpc.OpenChannelRequest{…}` in `Manager.BatchChannelSetup` -/")
 		l.p("def openChannelRequestFields : List (String × String) := %s", c17PairList(c17Literal(fd, "lnrpc.OpenChannelRequest")))
@@ -205,6 +580,7 @@ func genC17Facts() {
 	} else {
 		fail("funding.Manager.deriveFundingShim not found")
 	}
+	c17LitFiles = orderFiles
 	if fd := findFunc(orderFiles, "ParseRPCServerBid"); fd != nil {
 		l.p("/-- `Bid{…}` in `order.ParseRPCServerBid` (what the asker sees of the bid) -/")
 		l.p("def parseServerBidFields : List (String × String) := %s", c17PairList(c17Literal(fd, "Bid")))
@@ -212,6 +588,7 @@ func genC17Facts() {
 		fail("order.ParseRPCServerBid not found")
 	}
 	auct := pkgFiles("auctioneer")
+	c17LitFiles = auct
 	if fd := findFunc(auct, "Client.SubmitOrder"); fd != nil {
 		l.p("/-- `auctioneerrpc.ServerBid{…}` in `Client.SubmitOrder` (what the bidder sends) -/")
 		l.p("def submitServerBidFields : List (String × String) := %s", c17PairList(c17Literal(fd, "auctioneerrpc.ServerBid")))
@@ -221,6 +598,7 @@ func genC17Facts() {
 		fail("auctioneer.Client.SubmitOrder not found")
 	}
 	root := pkgFiles(".")
+	c17LitFiles = root
 	if fd := findFunc(root, "SidecarAcceptor.getSidecarAsOrder"); fd != nil {
 		l.p("/-- `order.Bid{…}` in `SidecarAcceptor.getSidecarAsOrder` (the recipient's dummy bid) -/")
 		l.p("def sidecarAsOrderFields : List (String × String) := %s", c17PairList(c17Literal(fd, "order.Bid")))
